@@ -116,6 +116,19 @@ def result_err_variant(ex, st, variant):
 
 # ------------------------------------------------------------------ monitors
 
+def monitor_frame(E, D):
+    """of the in-memory context the exchange touches the poll interval only: failure counter and schedule are
+    what they were (they belong to the caller, which assigns them once the outcome of the whole check is known)"""
+    ex = E.ex
+    import sutmon
+    c0, l0 = sutmon.ctx_terms(ex, State())
+    for st in E.paths:
+        if st.status != 'done':
+            continue
+        c1, l1 = sutmon.ctx_terms(ex, st)
+        D.require(st, z3.And(c1.t == c0.t, sutmon.opt_pct_eq(ex, st, l1, l0)), 'failure counter and last-contact time untouched by the exchange')
+
+
 def monitor_handler_kept(E, D):
     """on every path of the exchange function the CUP handler configuration is left as found"""
     ex = E.ex
